@@ -35,8 +35,9 @@ func (c *Case) CrashAttrs() mon.Attrs { return mon.Attrs{"kind": c.Kind, "mode":
 
 func Spec() *mon.Spec {
 	return &mon.Spec{
-		ID:    "C16",
-		Level: "fault_enumeration",
+		ID:      "C16",
+		RuleAdd: "Later additions (rounds 4-17): garbage tails incl. huge announced lengths; handler modes mutate-then-error, foreign exception, runtime.Goexit, library response types with oversized Data; the connection of a panicking handler must be closed by the server; long out-of-range bodies; FC5 values with a zero low byte; stalled readers (500 ms and 220 ms against a 150 ms write timeout).",
+		Level:   "fault_enumeration",
 		Rule: "request frames of classes {valid (10 functions), unsupported function code 1..127, quantity/value out of range, header-consistent truncated body, inconsistent byte count} x handlers {device response, fully filled *ErrorParseTCP, generic error, panic}. frames/unsupported: each frame is fed whole to a fresh ModbusTCPAssembler (layer A). sequence: fault sequences of such frames on one connection of a real server.Server (in-memory listener, -race) while a second, well-behaved control connection keeps issuing valid requests. " +
 			"Oracle: every reply decodes with the reference decoder (protocol 0, length field = following bytes), transaction id and unit id equal those of the request it answers (k-th reply <-> k-th request), exception replies are 9 bytes with fc|0x80 of that request; code 01 for unsupported functions, 03 for out-of-range quantities/values; a valid request answered by the device handler equals the reference reply; a panicking handler closes only its own connection: the worker process stays alive (cases run in child processes) and the control connection receives every reply. distinct key=(class, function, handler mode, length).",
 		Assumptions:  []string{"code of exceptions derived from handler errors and from truncated bodies is not constrained (only 01 and 03 are named by the property)"},
